@@ -21,6 +21,7 @@ import (
 	"encoding/json"
 	"flag"
 	"fmt"
+	"math/big"
 	"os"
 	"reflect"
 	"regexp"
@@ -161,6 +162,23 @@ func caseVariants(v string) []string {
 	return []string{strings.ToUpper(v), strings.ToLower(v), mixedCase(v)}
 }
 
+// intVariants: -N, 0, 2^256-1 (the largest value of a 32-byte word and of
+// math.Int), -(2^256-1), and 2^256 when math.Int can represent it.
+func intVariants(n sdkmath.Int) []interface{} {
+	out := []interface{}{n.Neg(), sdkmath.ZeroInt()}
+	max := new(big.Int).Sub(new(big.Int).Lsh(big.NewInt(1), 256), big.NewInt(1))
+	func() {
+		defer func() { _ = recover() }()
+		m := sdkmath.NewIntFromBigInt(max)
+		out = append(out, m, m.Neg())
+	}()
+	func() {
+		defer func() { _ = recover() }()
+		out = append(out, sdkmath.NewIntFromBigInt(new(big.Int).Lsh(big.NewInt(1), 256)))
+	}()
+	return out
+}
+
 func (e *env) discover() {
 	reg := e.w.App.InterfaceRegistry()
 	urls := reg.ListImplementations(ifaceURL)
@@ -197,6 +215,10 @@ func (e *env) discover() {
 					e.r.Cap(fmt.Sprintf("field %s.%s of type %s has no value domain; not enumerated", ct.Name, f.Name, f.Type))
 					continue
 				}
+			}
+			if v, ok := ft.Dom[0].(sdkmath.Int); ok {
+				// sign / width variants of a signed arbitrary-size integer
+				ft.Dom = dedupe(append(append([]interface{}{}, ft.Dom...), intVariants(v)...))
 			}
 			if v, ok := ft.Dom[0].(string); ok {
 				dom := append([]interface{}{}, ft.Dom...)
@@ -279,9 +301,27 @@ func (e *env) probePrefix() func(string) []byte {
 // against the record the handler writes in every quorum run.
 func attKey(m sdk.Msg) []byte {
 	c := m.(skywaytypes.EthereumClaim)
-	h, err := c.ClaimHash()
-	must(err)
+	h, ok := safeHash(c)
+	if !ok {
+		// ClaimHash failed / panicked for this claim: it has no key of its own
+		unhashable++
+		b, _ := json.Marshal(m)
+		return append([]byte("unhashable:"), b...)
+	}
 	return append(append([]byte{}, chainPrefix(c.GetChainReferenceId())...), skywaytypes.GetAttestationKey(c.GetSkywayNonce(), h)...)
+}
+
+var unhashable int
+
+// safeHash calls ClaimHash and turns an error or a panic into ok == false.
+func safeHash(c skywaytypes.EthereumClaim) (h []byte, ok bool) {
+	defer func() {
+		if r := recover(); r != nil {
+			h, ok = nil, false
+		}
+	}()
+	h, err := c.ClaimHash()
+	return h, err == nil
 }
 
 // ---------------------------------------------------------------------------
@@ -291,6 +331,10 @@ type outcome struct {
 	Votes  []string // per validator: ok | failing stage
 	Digest string
 	Stores map[string]string
+	// Key is the full store key of the attestation record the first accepted vote
+	// really created (observed); the computed key when no record was created.
+	// Not part of the outcome comparison.
+	Key string
 }
 
 var plainStores = []string{"bank", "acc", "feegrant", "paloma-store", "distribution"}
@@ -361,6 +405,33 @@ func (e *env) records(ctx sdk.Context) map[string]skywaytypes.Attestation {
 	return out
 }
 
+// checkStoredBodies: every attestation record must be stored under the key of
+// the claim body it stores (recomputed from the persisted bytes). Otherwise the
+// claim that will be executed is not the claim the votes were looked up by.
+func (e *env) checkStoredBodies(recs map[string]skywaytypes.Attestation, during string) {
+	var keys []string
+	for k := range recs {
+		keys = append(keys, k)
+	}
+	sort.Strings(keys)
+	for _, k := range keys {
+		a := recs[k]
+		claim, err := e.w.App.SkywayKeeper.UnpackAttestationClaim(&a)
+		if err != nil {
+			continue
+		}
+		m, ok := claim.(sdk.Msg)
+		if !ok {
+			continue
+		}
+		if own := attKey(m); string(own) != k {
+			name := reflect.TypeOf(claim).Elem().Name()
+			b, _ := json.Marshal(claim)
+			e.r.Violate("record:stored-claim-hashes-to-other-key:"+name, fmt.Sprintf("after a vote for a %s: the attestation record under store key %x (votes %v) stores the claim body %s, whose own attestation key is %x: votes are pooled under a key that is not the key of the claim that will be executed", during, k, a.Votes, b, own), map[string]interface{}{"case": "layout"})
+		}
+	}
+}
+
 func (e *env) attestations(ctx sdk.Context) (n int, votes []int) {
 	it := ctx.KVStore(e.w.App.GetKey(skywaytypes.StoreKey)).Iterator(nil, nil)
 	defer it.Close()
@@ -397,6 +468,11 @@ func (e *env) quorum(base sdk.Context, bodies []body) (outcome, sdk.Context, []s
 	var errs []string
 	for i, v := range e.voters {
 		msg := e.build(bodies[i].T, bodies[i].Ov, v)
+		// computed before delivery: a handler may modify the message object
+		want := string(attKey(msg))
+		if i == 0 {
+			o.Key = want
+		}
 		before := e.records(ctx)
 		res := e.w.DeliverTx(ctx, []*world.Actor{v.Actor}, msg)
 		o.Votes = append(o.Votes, stage(res))
@@ -410,17 +486,18 @@ func (e *env) quorum(base sdk.Context, bodies []body) (outcome, sdk.Context, []s
 		// prefix included) of the record the handler really wrote. A mismatch is
 		// reported as a verdict, not as a harness crash: the check's notion of
 		// "pooled" would be blind otherwise.
-		if res.OK() && i == 0 {
+		if res.OK() {
 			after := e.records(ctx)
-			if len(after) == len(before)+1 {
-				want := attKey(msg)
-				if _, ok := after[string(want)]; !ok {
-					var got string
-					for k := range after {
-						if _, old := before[k]; !old {
-							got = k
-						}
+			e.checkStoredBodies(after, bodies[i].T.Name)
+			if i == 0 && len(after) == len(before)+1 {
+				var got string
+				for k := range after {
+					if _, old := before[k]; !old {
+						got = k
 					}
+				}
+				o.Key = got
+				if got != want {
 					e.r.Violate("oracle:attestation-key-layout", fmt.Sprintf("%s: the first vote created the attestation record under store key %x, the check computes %x (probed chain store prefix + GetAttestationKey(skyway nonce, ClaimHash)): votes are not pooled by (chain, nonce, claim hash) as the property assumes", bodies[i].T.Name, got, want), map[string]interface{}{"case": "layout"})
 				}
 			}
@@ -455,6 +532,9 @@ func (e *env) setup() {
 	must(err)
 	if s == nil {
 		panic("snapshot not worthy")
+	}
+	if got := w.App.SkywayKeeper.GetLatestCompassID(root, ref); got != world.CompassID {
+		panic(fmt.Sprintf("harness: latest compass id of %s is %q, expected %q", ref, got, world.CompassID))
 	}
 	root = world.At(root, 151, root.BlockTime())
 
@@ -667,7 +747,8 @@ func (e *env) runCase(c caseT) {
 	if c.Show1 == "" {
 		c.Show1, c.Show2 = showOv(c.C1), showOv(c.C2)
 	}
-	k1, k2 := attKey(m1), attKey(m2)
+	// keys as observed on the records the handlers wrote (computed where no record was written)
+	k1, k2 := []byte(o1.Key), []byte(o2.Key)
 	differs := o1.String() != o2.String()
 	pooled := bytes.Equal(k1, k2)
 	key := ""
@@ -797,6 +878,9 @@ func run(r *report.Run, shard, nshards int, replayFile string) {
 		"cross-type pass: free-form string fields of all types draw from one pool (valid values of all string fields of all claim types + decimal renderings of numeric defaults; thorough: + second valid values); one free-form field at a time takes the composites x/y (x raw and url.PathEscape'd) over that pool; fields that enter the key outside ClaimHash (ChainReferenceId), validated strings and numeric fields take 2 values; all tuples of all types share one key map; groups are evaluated closest-to-valid first within a budget (cap reported)",
 		"sequence pass (5 equal validators, the pair stages vote with 4 of them): per routable claim type and field, A = the valid claim, B = A with the field's second value (thorough: every other value, all base states), schedules late-vote / nonce-reset (governance MsgNonceOverrideProposal to 0) / partial-then-quorum / interleaved; after every step a ghost of accepted votes is compared with the stored attestation records: a record holds only votes of validators whose accepted claim has that record's key, and every accepted vote is listed in the record under the key of the claim submitted. Whether B is observed after a reset is counted but is not an oracle (a stale observed attestation at the same nonce can stop the tally on the unchanged tree)",
 		"ChainReferenceId is treated as key-relevant outside the hash (detected: key reacts, ClaimHash does not): its domain and collision alphabet add id+NUL, id+3 NUL, two ids > 32 bytes sharing the first 32 bytes, the upper-case spelling and the other real chain id",
+		"after every accepted vote every attestation record must be stored under the key recomputed from the claim body it persists (record:stored-claim-hashes-to-other-key); the pooled/not-pooled decision of the pair oracle uses the store key of the record the first vote really created; keys are computed before delivery because a handler may modify the message object",
+		"math.Int fields take sign / width variants: N, -N, 0, 2^256-1, -(2^256-1) (2^256 is not representable by math.Int) in the pair, collision and cross-type passes; a claim whose ClaimHash fails or panics is counted and gets no key",
+		"the latest compass id of the scenario chains is recorded through the real activation path (EvmKeeper.ActivateChainReferenceID -> EVMActivatedChain event -> skyway keeper); asserted at start-up",
 		"thorough tier: separator-shift pairs over every ordered pair / triple of string (and numeric middle) fields, reported under signature prefix sepshift:",
 	}
 	if shard == 0 {
@@ -853,6 +937,7 @@ func run(r *report.Run, shard, nshards int, replayFile string) {
 	e.collisionSearch(shard, nshards, deadline, want)
 	e.crossTypeSearch(shard, nshards, deadline, want)
 	e.sequencePass(shard, nshards, want)
+	r.Extra["claims_without_hash (ClaimHash error or panic)"] = float64(unhashable)
 	var ne, nf, nk float64
 	for k, v := range e.effects {
 		ne += float64(v)
